@@ -374,7 +374,12 @@ def searchsorted(a, v, side='left'):
     a = asarray(a)
     vals = [x for x in real_np.ndarray.view(a, real_np.ndarray).flat]
     if isinstance(v, real_np.ndarray):
-        raise ModelGap('searchsorted of an array of needles')
+        # an array of needles: element by element (same contract)
+        src = real_np.ndarray.view(asarray(v), real_np.ndarray)
+        o = real_np.empty(src.shape, dtype=object)
+        for idx in real_np.ndindex(*src.shape):
+            o[idx] = searchsorted(a, src[idx], side)
+        return as_sarr(o, 'i8')
     if not builtins.any(isinstance(x, Sym) for x in vals) and not isinstance(v, Sym):
         return builtins.int(real_np.searchsorted(real_np.array(vals), v, side))
     core.ctx().assumptions.add('searchsorted: returns #{a_j < v} (left) on sorted input (contract stub)')
